@@ -20,8 +20,8 @@ from xknx.telegram.apci import GroupValueWrite
 LEVEL = "exploration"
 TECHNIQUE = (
     "runtime monitor: the real SecureRouting/SecureGroup/SecureSequenceTimer run on the virtual loop with stubbed multicast sockets; a peer built on "
-    "an independent CCM injects datagrams; for every datagram the reference decides authenticity, the public current_timer_value() read immediately "
-    "before delivery decides timeliness, and callbacks, timer offset, outgoing wrappers/notifies and exceptions are compared with the statement"
+    "an independent CCM injects datagrams; for every datagram the reference decides authenticity, the harness' own local timer (anchored at synchronisation and at every authentic timer update, advanced in exact "
+    "milliseconds of the virtual clock in between; event instants carry sub-second fractions) decides timeliness, and callbacks, timer offset, outgoing wrappers/notifies and exceptions are compared with the statement"
 )
 LEVEL_TEXT = (
     "Generated multicast histories: synchronisation answered / unanswered / answered twice (same loop iteration on the two sockets, consecutive "
@@ -33,7 +33,7 @@ LEVEL_TEXT = (
 LEVEL_NOTE = (
     "Trusted: vlib/refcrypto_ip.py (self-tested against the recorded vectors at start; failure => inconclusive), the virtual loop. Judged: a plain frame "
     "reaches a callback only if it is a search/description service; a wrapper reaches a callback only if the reference verifies it (backbone key, session 0) and "
-    "its timer is above local - latency (frames exactly on the boundary are not judged); a datagram the reference cannot authenticate never changes "
+    "its timer is above local - latency, local being the harness' millisecond model of the timer, not the value the code reports (frames exactly on the boundary are not judged); a datagram the reference cannot authenticate never changes "
     "current_timer_value() - clock, never completes the synchronisation, never makes us answer with an update notify carrying its tag; after synchronisation the "
     "timer offset never decreases and the timer values of outgoing wrappers never decrease; no delivery raises and nothing reaches the loop exception handler. "
     "Malformed plain frames that make the shared KNXnet/IP parser raise ValueError/IndexError (property C20) surface here as receive-path-raises-*-on-plain-malformed / -w-inner-malformed; "
@@ -101,6 +101,14 @@ def run_history(ctx, spec):
     def clock_ms():
         return int(loop.time() * 1000.0)
 
+    def model_local(tmr):
+        """The harness' own local timer: anchored when the timer was (re)set by synchronisation / an authentic frame,
+        advanced in exact milliseconds of the virtual clock in between. Before synchronisation: what the code reports."""
+        if st.get("anchor") is None:
+            return tmr.current_timer_value()
+        a_timer, a_clock = st["anchor"]
+        return a_timer + (clock_ms() - a_clock)
+
     def tx_records():
         return [(t, data) for (t, d, data, addr, tr) in loop.wire if d == "tx"]
 
@@ -118,8 +126,11 @@ def run_history(ctx, spec):
         if tr.closed:
             return
         tmr = timer()
-        local = tmr.current_timer_value()
-        off_before = local - clock_ms()
+        reported = tmr.current_timer_value()
+        local = model_local(tmr)
+        if reported != local:
+            ctx.count("reported_timer_differs_from_ms_clock_model")
+        off_before = reported - clock_ms()
         authed_before = tmr.timer_authenticated
         n_cb = len(callbacks)
         exc = None
@@ -129,10 +140,13 @@ def run_history(ctx, spec):
         except Exception as e:  # noqa: BLE001
             exc = e
         off_after = tmr.current_timer_value() - clock_ms()
+        if st.get("anchor") is not None and off_after != off_before:
+            # the frame moved the timer: the model follows by the same amount (judged below: only authentic frames may do this)
+            st["anchor"] = (st["anchor"][0] + (off_after - off_before), st["anchor"][1])
         got = callbacks[n_cb:]
         entry = {
             "t": round(loop.time() - 1000, 4), "kind": kind, "socket": sock, "raw": raw, "class": {k: v for k, v in cls.items() if k != "inner"},
-            "local_timer": local, "offset_before": off_before, "offset_after": off_after, "forwarded": got, "exception": repr(exc) if exc else None,
+            "local_timer": local, "reported_timer": reported, "offset_before": off_before, "offset_after": off_after, "forwarded": got, "exception": repr(exc) if exc else None,
         }
         trace.append(entry)
         kinds.append(kind + ("+" if got else "-") + ("!" if exc else ""))
@@ -292,7 +306,7 @@ def run_history(ctx, spec):
             inject(kind, *wrapper(local + rng.choice((-5, 0, 100))))
 
     async def main_event(kind, routing, tmr):
-        local = tmr.current_timer_value()
+        local = model_local(tmr)
         lat = latency
         off = {
             "ahead": rng.choice((1, 2, 1000, 100_000, 1 << 33)),
@@ -400,7 +414,7 @@ def run_history(ctx, spec):
         elif kind == "idle-short":
             await asyncio.sleep(rng.choice((0.001, 0.05, 0.3)))
         elif kind == "idle-long":
-            await asyncio.sleep(rng.choice((1.5, 12.0, 25.0)))
+            await asyncio.sleep(rng.choice((1.5, 3.625, 12.0, 25.0, 2 + rng.randrange(1, 1000) / 1000)))
 
     async def main():
         xknx = XKNX()
@@ -411,7 +425,7 @@ def run_history(ctx, spec):
         await asyncio.sleep(0.001)
         tmr = routing.transport.secure_timer
         for kind in spec["sync"]:
-            await asyncio.sleep(rng.choice((0.0, 0.01, 0.15, 0.4)))
+            await asyncio.sleep(rng.choice((0.0, 0.01, 0.125, 0.15, 0.4, rng.randrange(1, 500) / 1000)))
             if task.done():
                 break
             await sync_event(kind, tmr)
@@ -422,10 +436,11 @@ def run_history(ctx, spec):
             ctx.count("connect_raised_" + type(exc).__name__)
             return
         st["synced_at"] = loop.time()
+        st["anchor"] = (tmr.current_timer_value(), clock_ms())
         kinds.append("keeper" if tmr.timekeeper else "follower")
         ctx.count("synchronised_as_timekeeper" if tmr.timekeeper else "synchronised_as_follower")
         for kind in spec["main"]:
-            await asyncio.sleep(rng.choice((0, 0, 0.001, 0.03, 0.2)))
+            await asyncio.sleep(rng.choice((0, 0, 0.001, 0.03, 0.125, 0.2, 0.375, 0.625, 0.875, rng.randrange(1, 1000) / 1000)))
             await main_event(kind, routing, tmr)
         await asyncio.sleep(rng.choice((0, 2.0)))
         await routing.disconnect()
